@@ -1,4 +1,6 @@
-(* Proofs for the maxsize domain (C18). *)
+(* Proofs for the maxsize domain (C18), for the write paths as repaired by the fix commits
+   ff7d2a8 (MKI counted in the overhead) and 5cb4d00 (error instead of a make() panic).
+   The proofs about the code before the fixes are in history/. *)
 From Coq Require Import ZArith NArith List Bool Lia.
 From Coq Require Import ZifyBool ZifyNat ZifyN.
 From GVL Require Import NList Wire.
@@ -8,145 +10,118 @@ Import ListNotations.
 Open Scope Z_scope.
 
 (* ---------- obligations on the regenerated constants ---------- *)
-(* the overhead the code subtracts covers what pion/srtp adds WITHOUT an MKI *)
+(* the overhead the code subtracts covers what pion/srtp adds besides the MKI *)
 Lemma overhead_covers_tag : srtp_tag <= srtp_overhead /\ srtcp_index + srtp_tag <= srtcp_overhead.
 Proof. split; vm_compute; discriminate. Qed.
 
-Lemma udp_max_fits_16 : udp_max + mki_length < 65536.
-Proof. vm_compute. reflexivity. Qed.
-
-Lemma mki_positive : 0 < mki_length.
+Lemma udp_max_fits_16 : udp_max < 65536.
 Proof. vm_compute. reflexivity. Qed.
 
 Lemma overheads_nonneg : 0 <= srtp_overhead /\ 0 <= srtcp_overhead.
 Proof. split; vm_compute; discriminate. Qed.
 
-(* ---------- wire_le_max ---------- *)
-Theorem wire_le_max_rtp max secure size w :
-  write_rtp max secure 0 size = WSent w -> w <= max.
+(* ---------- wire_le_max: for every maximum, plain or SRTP, every MKI length, every size ---------- *)
+Theorem wire_le_max_rtp max secure mki size w :
+  write_rtp max secure mki size = WSent w -> w <= max.
 Proof.
   pose proof overhead_covers_tag as [Ht _].
   unfold write_rtp, srtp_len. destruct secure.
-  - destruct (Z.ltb_spec (max - srtp_overhead) 0); [discriminate|].
-    destruct (Z.ltb_spec (max - srtp_overhead) size); [discriminate|].
+  - destruct (Z.ltb_spec (max - (srtp_overhead + mki)) 0); [discriminate|].
+    destruct (Z.ltb_spec (max - (srtp_overhead + mki)) size); [discriminate|].
     intros E; inversion E; subst. lia.
   - destruct (Z.ltb_spec max 0); [discriminate|].
     destruct (Z.ltb_spec max size); [discriminate|].
     intros E; inversion E; subst. lia.
 Qed.
 
-Theorem wire_le_max_rtcp max secure size w :
-  write_rtcp max secure 0 size = WSent w -> w <= max.
+Theorem wire_le_max_rtcp max secure mki size w :
+  write_rtcp max secure mki size = WSent w -> w <= max.
 Proof.
   pose proof overhead_covers_tag as [_ Ht].
   unfold write_rtcp, srtcp_len. destruct secure.
-  - destruct (Z.ltb_spec (max - srtcp_overhead) size); [discriminate|].
+  - destruct (Z.ltb_spec (max - (srtcp_overhead + mki)) size); [discriminate|].
     destruct (Z.ltb_spec max 0); [discriminate|].
     intros E; inversion E; subst. lia.
   - destruct (Z.ltb_spec max size); [discriminate|].
     intros E; inversion E; subst. lia.
 Qed.
 
-(* with an MKI the bound is max + |MKI| *)
-Theorem wire_le_max_mki_rtp max secure mki size w :
-  0 <= mki -> write_rtp max secure mki size = WSent w -> w <= max + mki.
+(* ---------- no panic, whatever the maximum (negative and tiny ones included) ---------- *)
+Theorem write_rtp_no_panic max secure mki size : write_rtp max secure mki size <> WPanic.
 Proof.
-  pose proof overhead_covers_tag as [Ht _]. intros Hm.
-  unfold write_rtp, srtp_len. destruct secure.
-  - destruct (Z.ltb_spec (max - srtp_overhead) 0); [discriminate|].
-    destruct (Z.ltb_spec (max - srtp_overhead) size); [discriminate|].
-    intros E; inversion E; subst. lia.
-  - destruct (Z.ltb_spec max 0); [discriminate|].
-    destruct (Z.ltb_spec max size); [discriminate|].
-    intros E; inversion E; subst. lia.
+  unfold write_rtp. destruct secure;
+    repeat match goal with |- context [Z.ltb ?a ?b] => destruct (Z.ltb a b) end; discriminate.
 Qed.
 
-Theorem wire_le_max_mki_rtcp max secure mki size w :
-  0 <= mki -> write_rtcp max secure mki size = WSent w -> w <= max + mki.
-Proof.
-  pose proof overhead_covers_tag as [_ Ht]. intros Hm.
-  unfold write_rtcp, srtcp_len. destruct secure.
-  - destruct (Z.ltb_spec (max - srtcp_overhead) size); [discriminate|].
-    destruct (Z.ltb_spec max 0); [discriminate|].
-    intros E; inversion E; subst. lia.
-  - destruct (Z.ltb_spec max size); [discriminate|].
-    intros E; inversion E; subst. lia.
-Qed.
-
-(* F13: with the 4-byte MKI of axisClientManagedKeys a packet leaves that is larger than the maximum *)
-Theorem wire_le_max_mki_refuted :
-  exists max size w : Z, 0 < max <= udp_max /\ 0 <= size /\
-    write_rtp max true mki_length size = WSent w /\ max < w.
-Proof. exists 1472, 1462, 1476. vm_compute. repeat split; congruence. Qed.
-
-Theorem wire_le_max_mki_rtcp_refuted :
-  exists max size w : Z, 0 < max <= udp_max /\ 0 <= size /\
-    write_rtcp max true mki_length size = WSent w /\ max < w.
-Proof. exists 1472, 1458, 1476. vm_compute. repeat split; congruence. Qed.
-
-(* a write that is refused or a packet within the limit: the only outcomes when the maximum can hold
-   the overhead (no panic) *)
-Theorem write_rtp_no_panic (max : Z) (secure : bool) (mki size : Z) :
-  (if secure then srtp_overhead else 0) <= max -> write_rtp max secure mki size <> WPanic.
-Proof.
-  intros H. unfold write_rtp. destruct secure.
-  - destruct (Z.ltb_spec (max - srtp_overhead) 0); [lia|].
-    destruct (Z.ltb_spec (max - srtp_overhead) size); discriminate.
-  - destruct (Z.ltb_spec max 0); [lia|]. destruct (Z.ltb_spec max size); discriminate.
-Qed.
-
+(* size and mki are lengths *)
 Theorem write_rtcp_no_panic max secure mki size :
-  0 <= size -> write_rtcp max secure mki size <> WPanic.
+  0 <= size -> 0 <= mki -> write_rtcp max secure mki size <> WPanic.
 Proof.
-  pose proof overheads_nonneg as [_ Ho]. intros H. unfold write_rtcp. destruct secure.
-  - destruct (Z.ltb_spec (max - srtcp_overhead) size); [discriminate|].
+  pose proof overheads_nonneg as [_ Ho]. intros Hs Hm. unfold write_rtcp. destruct secure.
+  - destruct (Z.ltb_spec (max - (srtcp_overhead + mki)) size); [discriminate|].
     destruct (Z.ltb_spec max 0); [lia|discriminate].
   - destruct (Z.ltb_spec max size); discriminate.
 Qed.
 
-(* a maximum below the SRTP overhead passes Start and makes every SRTP RTP write panic *)
-Theorem tiny_max_panics_refuted :
-  exists max : Z, 0 < max <= udp_max /\ start_ok max 0 = StartOk max default_write_queue /\
-    forall mki size, write_rtp max true mki size = WPanic.
-Proof. exists 8. split; [vm_compute; split; congruence|]. split; [reflexivity|]. intros; reflexivity. Qed.
+(* a refused write is the only alternative: every outcome is an error or a packet within the limit *)
+Theorem write_outcomes max secure mki size :
+  0 <= size -> 0 <= mki ->
+  (write_rtp max secure mki size = WErr \/ exists w, write_rtp max secure mki size = WSent w /\ w <= max) /\
+  (write_rtcp max secure mki size = WErr \/ exists w, write_rtcp max secure mki size = WSent w /\ w <= max).
+Proof.
+  intros Hs Hm. split.
+  - destruct (write_rtp max secure mki size) eqn:E; [now left| |].
+    + now apply write_rtp_no_panic in E.
+    + right. exists wire. split; [reflexivity|]. now apply wire_le_max_rtp in E.
+  - destruct (write_rtcp max secure mki size) eqn:E; [now left| |].
+    + now apply write_rtcp_no_panic in E.
+    + right. exists wire. split; [reflexivity|]. now apply wire_le_max_rtcp in E.
+Qed.
 
 (* ---------- frame_not_truncated ---------- *)
 Theorem frame_not_truncated max w :
   0 <= w <= max -> max <= udp_max -> tcp_frame max w = Some (w, frame_header + w).
 Proof.
-  pose proof udp_max_fits_16 as H16. pose proof mki_positive as Hm.
+  pose proof udp_max_fits_16 as H16.
   intros Hw Hmax. unfold tcp_frame, tcp_buffer_extra, frame_header in *.
   destruct (Z.ltb_spec (max + 4) 4); [lia|].
   rewrite Z.mod_small by lia. rewrite Z.min_l by lia. reflexivity.
 Qed.
 
-Corollary frame_not_truncated_rtp max secure size w :
-  0 <= size -> max <= udp_max -> write_rtp max secure 0 size = WSent w ->
+Theorem frame_not_truncated_rtp max secure mki size w :
+  0 <= size -> 0 <= mki -> max <= udp_max -> write_rtp max secure mki size = WSent w ->
   tcp_frame max w = Some (w, frame_header + w).
 Proof.
-  intros Hs Hmax E. pose proof (wire_le_max_rtp _ _ _ _ E) as Hle.
+  intros Hs Hm Hmax E. pose proof (wire_le_max_rtp _ _ _ _ _ E) as Hle.
   apply frame_not_truncated; [|exact Hmax]. split; [|exact Hle].
   unfold write_rtp, srtp_len, srtp_tag in E. destruct secure;
     repeat match type of E with context [Z.ltb ?a ?b] => destruct (Z.ltb_spec a b); try discriminate end;
     inversion E; lia.
 Qed.
 
-Corollary frame_not_truncated_rtcp max secure size w :
-  0 <= size -> max <= udp_max -> write_rtcp max secure 0 size = WSent w ->
+Theorem frame_not_truncated_rtcp max secure mki size w :
+  0 <= size -> 0 <= mki -> max <= udp_max -> write_rtcp max secure mki size = WSent w ->
   tcp_frame max w = Some (w, frame_header + w).
 Proof.
-  intros Hs Hmax E. pose proof (wire_le_max_rtcp _ _ _ _ E) as Hle.
+  intros Hs Hm Hmax E. pose proof (wire_le_max_rtcp _ _ _ _ _ E) as Hle.
   apply frame_not_truncated; [|exact Hmax]. split; [|exact Hle].
   unfold write_rtcp, srtcp_len, srtp_tag, srtcp_index in E. destruct secure;
     repeat match type of E with context [Z.ltb ?a ?b] => destruct (Z.ltb_spec a b); try discriminate end;
     inversion E; lia.
 Qed.
 
-(* with the MKI: the frame announces more bytes than are written *)
-Theorem frame_truncated_mki_refuted :
-  exists max size w d n : Z, 0 < max <= udp_max /\
-    write_rtp max true mki_length size = WSent w /\ tcp_frame max w = Some (d, n) /\ n < frame_header + d.
-Proof. exists 1472, 1462, 1476, 1476, 1476. vm_compute. repeat split; congruence. Qed.
+(* ---------- regression: what the code did before the fix commits ---------- *)
+Lemma old_mki_oversize :
+  write_rtp_old 1472 true mki_length 1462 = WSent 1476 /\ write_rtcp_old 1472 true mki_length 1458 = WSent 1476 /\
+  tcp_frame 1472 1476 = Some (1476, 1476) /\
+  write_rtp 1472 true mki_length 1462 = WErr /\ write_rtp 1472 true mki_length 1458 = WSent 1472 /\
+  write_rtcp 1472 true mki_length 1458 = WErr /\ write_rtcp 1472 true mki_length 1454 = WSent 1472.
+Proof. vm_compute. repeat split; reflexivity. Qed.
+
+Lemma old_tiny_max_panic :
+  (forall mki size, write_rtp_old 8 true mki size = WPanic) /\
+  (forall size, write_rtp 8 true 0 size = WErr) /\ (forall size, write_rtp (-1) false 0 size = WErr).
+Proof. repeat split; intros; reflexivity. Qed.
 
 (* ---------- start_rejects ---------- *)
 Open Scope N_scope.
@@ -181,7 +156,6 @@ Qed.
 
 Open Scope Z_scope.
 
-(* a larger maximum is rejected *)
 Theorem start_rejects_max max wq : udp_max < max -> start_ok max wq = StartErr.
 Proof.
   intros H. unfold start_ok. destruct (negb (wq =? 0)%N && negb (pow2_ok wq)); [reflexivity|].
@@ -189,7 +163,6 @@ Proof.
   destruct (Z.eqb_spec max 0); [lia|]. destruct (Z.ltb_spec udp_max max); [reflexivity|lia].
 Qed.
 
-(* a write-queue size that is not a power of two is rejected *)
 Theorem start_rejects_queue max wq :
   wq <> 0%N -> (forall k, wq <> (2 ^ k)%N) -> start_ok max wq = StartErr.
 Proof.
@@ -199,7 +172,6 @@ Proof.
   apply pow2_ok_sound in E as [E|[k E]]; [contradiction|]. now apply Hk in E.
 Qed.
 
-(* what is accepted: a maximum within the UDP payload limit and a power-of-two queue *)
 Theorem start_accepts_only max wq m q :
   start_ok max wq = StartOk m q ->
   m <= udp_max /\ (exists k, q = (2 ^ k)%N) /\ (m = max \/ (max = 0 /\ m = udp_max)).
@@ -217,7 +189,6 @@ Proof.
       intros E; inversion E; subst. split; [lia|]. split; [exact Ep|]. now left.
 Qed.
 
-(* power-of-two queue sizes and maxima within the limit are accepted *)
 Theorem start_accepts max k : 0 < max <= udp_max -> start_ok max (2 ^ k)%N = StartOk max (2 ^ k)%N.
 Proof.
   intros H. unfold start_ok. rewrite pow2_ok_complete. cbn [negb andb].
